@@ -27,9 +27,8 @@ partial def showVal : Val → String
   | .seq vs => "[" ++ showVals vs ++ "]"
   | .variant i fs => "#" ++ toString i ++ "(" ++ showVals fs ++ ")"
   | .record fs => "{" ++ showVals fs ++ "}"
-partial def showVals : List Val → String
-  | [] => ""
-  | v :: vs => showVal v ++ "," ++ showVals vs
+partial def showVals (vs : List Val) : String :=
+  String.join (vs.map fun v => showVal v ++ ",")      -- linear (a right-nested `++` copies the tail at every item)
 end
 
 mutual
@@ -44,9 +43,8 @@ partial def showEVal : EVal → String
   | .bSlice off _ vs => "@" ++ toString off ++ "[" ++ showVals vs ++ "]"
   | .bRef off _ v => "&@" ++ toString off ++ showVal v
   | .zRef _ v => "&@-" ++ showVal v
-partial def showEVals : List EVal → String
-  | [] => ""
-  | v :: vs => showEVal v ++ "," ++ showEVals vs
+partial def showEVals (vs : List EVal) : String :=
+  String.join (vs.map fun v => showEVal v ++ ",")
 end
 
 def showErr : Err → String
